@@ -220,6 +220,12 @@ impl<VM: VMBinding> CopySpace<VM> {
             crate::util::metadata::vo_bit::bzero_vo_bit(start, size);
         }
 
+        #[cfg(feature = "mmtk_verif")]
+        crate::verif::gc::ev(
+            crate::verif::gc::Kind::PrReset,
+            crate::verif::gc::space_tag(self.get_name(), self.pr.reserved_pages()),
+            0,
+        );
         unsafe {
             self.pr.reset();
         }
